@@ -181,11 +181,19 @@ impl Acc {
     }
 }
 
-fn run_chunk<V: Variant>(seed: u64, run: u64, key_index: usize, chunk: u64, pool: &KeyPool<V>, per_chunk: usize) -> RunOutcome {
+fn run_chunk<V: Variant, W: Variant>(seed: u64, run: u64, key_index: usize, chunk: u64, pool: &KeyPool<V>, per_chunk: usize, warm: Option<&crate::world::KeyEntry<W>>) -> RunOutcome {
     let mut out = RunOutcome::default();
     let mut st = Stats::default();
     st.inc("runs");
     let n = V::N;
+    // warm-up: the very first signature of this process is made with a key of the OTHER variant
+    // (state kept per process and not keyed by the variant would be initialised by it)
+    if let Some(w) = warm {
+        if let Ok((wsk, _)) = w.load() {
+            let _ = crate::world::sign_sim::<W>(&wsk, b"warm-up with the other variant", &crate::world::SignPlan::uniform(run ^ 0x77), None);
+            st.inc("warmups_with_other_variant");
+        }
+    }
     let k = &pool.keys[key_index];
     let kp = match k.load() {
         Ok(kp) => kp,
@@ -313,6 +321,8 @@ pub struct Ctx {
     pub p1024: KeyPool<V1024>,
     pub chunks: u64,
     pub per_chunk: usize,
+    /// number of Falcon-1024 keys whose history is taken (the pool always holds one for warm-ups)
+    pub k1024: usize,
 }
 
 fn sizes(tier: Tier) -> (usize, usize, u64, usize) {
@@ -327,27 +337,63 @@ pub fn context(tier: Tier, seed: u64) -> Result<Ctx, String> {
     let w = report::workers();
     let (k512, k1024, chunks, per_chunk) = sizes(tier);
     let pseed = report::run_seed(seed, "pool", 0);
-    let p512: KeyPool<V512> = KeyPool::build(pseed, k512, 0, w);
-    let p1024: KeyPool<V1024> = KeyPool::build(pseed ^ 0x1024, k1024, 0, w);
-    if p512.keys.len() < k512 || p1024.keys.len() < k1024 {
+    // candidates; the keys whose histories are taken are SELECTED from them: the one with the longest
+    // (g,-f), the one with the largest Gram-Schmidt norm (its smallest leaf width is closest to
+    // sigma_min), then the remaining ones in order. The selection uses the harness's own arithmetic
+    // on the key bytes only.
+    let mut p512: KeyPool<V512> = KeyPool::build(pseed, k512 * 5 + 1, 0, w);
+    let mut p1024: KeyPool<V1024> = KeyPool::build(pseed ^ 0x1024, (k1024 * 4).max(1), 0, w);
+    if p512.keys.len() < k512 || p1024.keys.len() < k1024.max(1) {
         return Err("key pool could not be built on the current tree".into());
     }
-    Ok(Ctx { p512, p1024, chunks, per_chunk })
+    fn select<V: Variant>(pool: &mut KeyPool<V>, want: usize) {
+        let mut scored: Vec<(f64, f64, usize)> = Vec::new();
+        for (i, k) in pool.keys.iter().enumerate() {
+            if let Ok(b) = Basis::from_bytes(V::N, &k.sk_bytes, &k.pk_bytes) {
+                let gmax = b.gs_norms.iter().cloned().fold(0.0, f64::max);
+                scored.push((b.row_norm_fg, gmax, i));
+            }
+        }
+        let mut order: Vec<usize> = Vec::new();
+        if let Some(a) = scored.iter().max_by(|x, y| x.0.partial_cmp(&y.0).unwrap()) {
+            order.push(a.2);
+        }
+        if let Some(a) = scored.iter().filter(|x| !order.contains(&x.2)).max_by(|x, y| x.1.partial_cmp(&y.1).unwrap()) {
+            order.push(a.2);
+        }
+        for sc in &scored {
+            if !order.contains(&sc.2) {
+                order.push(sc.2);
+            }
+        }
+        order.truncate(want);
+        // keep the selection order: longest (g,-f) first
+        let mut slots: Vec<Option<crate::world::KeyEntry<V>>> = std::mem::take(&mut pool.keys).into_iter().map(Some).collect();
+        pool.keys = order.iter().filter_map(|&i| slots[i].take()).collect();
+    }
+    select(&mut p512, k512);
+    select(&mut p1024, k1024.max(1));
+    Ok(Ctx { p512, p1024, chunks, per_chunk, k1024 })
 }
 
 fn dispatch(ctx: &Ctx, seed: u64, run: u64) -> RunOutcome {
-    let n1024 = ctx.p1024.keys.len() as u64 * ctx.chunks;
+    let n1024 = ctx.k1024 as u64 * ctx.chunks;
+    // every other key has all its chunks warmed up with a key of the other variant
     if run < n1024 {
-        run_chunk::<V1024>(seed, run, (run / ctx.chunks) as usize, run % ctx.chunks, &ctx.p1024, ctx.per_chunk)
+        let ki = (run / ctx.chunks) as usize;
+        let warm = if ki % 2 == 0 { ctx.p512.keys.first() } else { None };
+        run_chunk::<V1024, V512>(seed, run, ki, run % ctx.chunks, &ctx.p1024, ctx.per_chunk, warm)
     } else {
         let r = run - n1024;
-        run_chunk::<V512>(seed, run, (r / ctx.chunks) as usize, r % ctx.chunks, &ctx.p512, ctx.per_chunk)
+        let ki = (r / ctx.chunks) as usize;
+        let warm = if ki % 2 == 0 { ctx.p1024.keys.first() } else { None };
+        run_chunk::<V512, V1024>(seed, run, ki, r % ctx.chunks, &ctx.p512, ctx.per_chunk, warm)
     }
 }
 
 pub fn runner(tier: Tier, seed: u64) -> Option<(u64, Box<dyn Fn(u64) -> RunOutcome + Sync>)> {
     let ctx = context(tier, seed).ok()?;
-    let n = (ctx.p512.keys.len() + ctx.p1024.keys.len()) as u64 * ctx.chunks;
+    let n = (ctx.p512.keys.len() + ctx.k1024) as u64 * ctx.chunks;
     Some((n, Box::new(move |run| dispatch(&ctx, seed, run))))
 }
 
@@ -358,7 +404,7 @@ pub fn rerun(tier: Tier, seed: u64, run: u64) -> Option<RunOutcome> {
 
 fn batch(rep: &mut Report, tier: Tier, seed: u64) -> Result<(), String> {
     let ctx = context(tier, seed)?;
-    let total = (ctx.p512.keys.len() + ctx.p1024.keys.len()) as u64 * ctx.chunks;
+    let total = (ctx.p512.keys.len() + ctx.k1024) as u64 * ctx.chunks;
     let out = report::parallel_runs(total, report::workers(), |run| dispatch(&ctx, seed, run));
     rep.absorb(out);
     Ok(())
@@ -460,7 +506,7 @@ fn evaluate(rep: &mut Report) {
         if a.over_bound > 0 {
             // already reported by the run itself
         }
-        if (norm_ratio - 1.0).abs() > 0.01 {
+        if (norm_ratio - 1.0).abs() > 0.006 {
             alarm("mean squared norm", format!("mean ||s||^2/(2n sigma^2) = {:.5} over {} signatures", norm_ratio, a.m), rep);
             continue;
         }
@@ -514,10 +560,10 @@ pub fn check(tier: Tier, seed: u64) -> i32 {
         }
     }
     evaluate(&mut rep);
-    rep.rule = "a case is one signature in the history of one key: K keys x M signatures over distinct messages under healthy simulated entropy (E1), signed by 1-4 baton-scheduled threads sharing the key; for each signature (s1, s2) is recovered with the harness's own arithmetic and projected on the 2n normalised secret-basis rows and the 2n Gram-Schmidt (ffLDL leaf) directions; every signature is non-trivial; distinct = distinct signature bytes (plus one per key whose statistics were evaluated)".into();
+    rep.rule = "a case is one signature in the history of one key: K keys (selected from 5K candidates: the one with the longest (g,-f), the one with the largest Gram-Schmidt norm, then in order; every other key has each of its runs warmed up by one signature with a key of the other variant) x M signatures over distinct messages under healthy simulated entropy (E1), signed by 1-4 baton-scheduled threads sharing the key; for each signature (s1, s2) is recovered with the harness's own arithmetic and projected on the 2n normalised secret-basis rows and the 2n Gram-Schmidt (ffLDL leaf) directions; every signature is non-trivial; distinct = distinct signature bytes (plus one per key whose statistics were evaluated)".into();
     rep.assumptions = vec![
         "sigma from the specification (165.7366171829776 / 168.38857144654395)".into(),
-        "alarms: mean ||s||^2/(2n sigma^2) outside 1 +- 0.01; pooled second moment of a direction class outside 1 +- 0.02 (widened to 7 standard deviations of that statistic, computed from the spectrum of the class's Gram operator, where that is larger); a single direction outside 1 +- 7*sqrt(2/M); a direction mean beyond 6 standard errors or over-dispersed direction means; the sum of M*r^2 over neighbouring Gram-Schmidt coordinates (lags 1-3, leaf order) more than 8 standard deviations above its expectation; any ||s||^2 above floor(beta^2); fixed default seed".into(),
+        "alarms: mean ||s||^2/(2n sigma^2) outside 1 +- 0.006; pooled second moment of a direction class outside 1 +- 0.02 (widened to 7 standard deviations of that statistic, computed from the spectrum of the class's Gram operator, where that is larger); a single direction outside 1 +- 7*sqrt(2/M); a direction mean beyond 6 standard errors or over-dispersed direction means; the sum of M*r^2 over neighbouring Gram-Schmidt coordinates (lags 1-3, leaf order) more than 8 standard deviations above its expectation; any ||s||^2 above floor(beta^2); fixed default seed".into(),
         "detects distributional damage above these effect sizes only".into(),
         "no buggify and no entropy faults here: they would legitimately change the law".into(),
     ];
